@@ -116,7 +116,7 @@ inline void genProgram(Rng& rng, int gen, uint8_t* prog, Meta* meta = nullptr) {
 		for (int i = 0; i < 384; ++i) {
 			int type = mode == 0 ? FDIV_M : mode == 1 ? CFROUND : longTypes[rng.below(10)];
 			Ins in = { opc(type, rng), (uint8_t)rng.below(256), (uint8_t)(4 | (rng.below(32) << 3)), (uint8_t)rng.below(256), rng.u32() };
-			if (type == CFROUND) in.imm = rng.u32() & ~63u | (uint32_t)((13 + 1 + rng.below(62)) & 63); // rotate != 0
+			if (type == CFROUND) in.imm = (rng.u32() & ~63u) | (uint32_t)((13 + 1 + rng.below(62)) & 63); // rotate != 0
 			if (type == IMUL_RCP && isPow2(in.imm)) in.imm = 3;
 			if ((type == IMULH_M || type == ISMULH_M) && (in.dst & 7) == 4) in.dst ^= 1;
 			put(prog, i, in);
